@@ -419,10 +419,13 @@ pub fn minimise(check: &dyn Check, cap: &Capture, scenario: &J, key: &str, budge
     let mut best = scenario.clone();
     let mut detail = still_fails(check, cap, &best, key).unwrap_or_default();
     let mut spent = 1usize;
+    // Wall-clock bound as well: in the worlds that run real processes against real time one
+    // attempt can cost seconds. (It bounds how small the replay gets, not what is reported.)
+    let started = std::time::Instant::now();
     'outer: loop {
         let candidates = check.shrink(&best);
         for cand in candidates {
-            if spent >= budget {
+            if spent >= budget || started.elapsed().as_secs() > 150 {
                 break 'outer;
             }
             if cand == best {
